@@ -593,11 +593,205 @@ package dns
 //@    return true
 //@ }
 
+// ===================================================================================================
+// C11: the whole negotiation over simulated DNS paths (real wire encoding both ways; record types not answered,
+// case folding, 7-bit names, answer size limits): the handshake ends, and if it reports success several
+// fragments of data arrive unchanged in both directions over the same path.  Bounded: one run per path.
+//@ import io "io"
+//@ import time "time"
+//@ import log "github.com/sirupsen/logrus"
+// specPath is a DNS path between the tunnel client and server: real wire encoding in both directions, plus what
+// resolvers on the way may do to a query or an answer: refuse = record types that are not answered; fold = 1: query
+// names lower-cased, 2: upper-cased; sevenBit: octets above 127 in a query name become '?'; maxAns: answers that
+// pack to more octets are dropped (0: no limit).
+//@ go type specPath struct {
+//@    refuse   map[uint16]bool
+//@    fold     int
+//@    sevenBit bool
+//@    maxAns   int
+//@    message  OnMessage
+//@    closed   bool
+//@    queries  int
+//@ }
+//@ go func (p *specPath) Close() error                      { p.closed = true; return nil }
+//@ go func (p *specPath) Closed() bool                      { return p.closed }
+//@ go func (p *specPath) LocalAddr() net.Addr               { return &net.UDPAddr{IP: net.IPv4(127, 0, 0, 1), Port: 1234} }
+//@ go func (p *specPath) RemoteAddr() net.Addr              { return &net.UDPAddr{IP: net.IPv4(127, 0, 0, 1), Port: 53} }
+//@ go func (p *specPath) SetDeadline(t time.Time) error      { return nil }
+//@ go func (p *specPath) SetReadDeadline(t time.Time) error  { return nil }
+//@ go func (p *specPath) SetWriteDeadline(t time.Time) error { return nil }
+//@ go func (p *specPath) RegisterAccept(m OnMessage)        { p.message = m }
+//@ go func (p *specPath) SendAndReceive(m *mdns.Msg, timeout *time.Duration) (*mdns.Msg, time.Duration, error) {
+//@    p.queries++
+//@    if p.queries > 20000 {
+//@       p.closed = true
+//@    }
+//@    if p.closed || p.message == nil {
+//@       return nil, 0, io.ErrClosedPipe
+//@    }
+//@    q, b := specWire(m)
+//@    if q == nil || b == nil {
+//@       return nil, 0, fmt.Errorf("query cannot be packed")
+//@    }
+//@    if len(q.Question) > 0 && p.refuse[q.Question[0].Qtype] {
+//@       return nil, 0, fmt.Errorf("record type not answered")
+//@    }
+//@    for i := range q.Question {
+//@       switch p.fold {
+//@       case 1:
+//@          q.Question[i].Name = strings.ToLower(q.Question[i].Name)
+//@       case 2:
+//@          q.Question[i].Name = strings.ToUpper(q.Question[i].Name)
+//@       }
+//@       if p.sevenBit {
+//@          q.Question[i].Name = specSevenBit(q.Question[i].Name)
+//@       }
+//@    }
+//@    r, err := p.message(q, p.LocalAddr())
+//@    if err != nil || r == nil {
+//@       return nil, 0, fmt.Errorf("no answer")
+//@    }
+//@    a, ab := specWire(r)
+//@    if a == nil || ab == nil {
+//@       return nil, 0, fmt.Errorf("answer cannot be packed")
+//@    }
+//@    if p.maxAns > 0 && len(ab) > p.maxAns {
+//@       return nil, 0, fmt.Errorf("answer too large for the path")
+//@    }
+//@    return a, time.Millisecond, nil
+//@ }
+// specSevenBit: presentation-form escapes \DDD of octets above 127 become '?'
+//@ go func specSevenBit(name string) string {
+//@    var out []byte
+//@    for i := 0; i < len(name); i++ {
+//@       if name[i] == '\\' && i+3 < len(name) && name[i+1] >= '0' && name[i+1] <= '9' {
+//@          v := int(name[i+1]-'0')*100 + int(name[i+2]-'0')*10 + int(name[i+3]-'0')
+//@          if v > 127 {
+//@             out = append(out, '?')
+//@          } else {
+//@             out = append(out, name[i:i+4]...)
+//@          }
+//@          i += 3
+//@          continue
+//@       }
+//@       out = append(out, name[i])
+//@    }
+//@    return string(out)
+//@ }
+// specNegotiationScenario: the client's handshake over the path must end within the time budget; if it reports
+// success, data of several fragments must arrive unchanged in both directions over the same path.
+//@ go func specNegotiationScenario(name string, p *specPath) bool {
+//@    budget := 60 * time.Second
+//@    log.SetLevel(log.ErrorLevel)
+//@    server := NewServerDnsListener("example.org", p)
+//@    client, err := NewClientDnsConnection("example.org", p)
+//@    if err != nil {
+//@       specWitness = name + ": client not created: " + err.Error()
+//@       return false
+//@    }
+//@    defer server.Close()
+//@    defer p.Close()
+//@    done := make(chan error, 1)
+//@    go func() { done <- client.Handshake() }()
+//@    select {
+//@    case err = <-done:
+//@    case <-time.After(budget):
+//@       specWitness = fmt.Sprintf("%s: the handshake did not end within %v (%d queries so far)", name, budget, p.queries)
+//@       p.closed = true
+//@       return false
+//@    }
+//@    if p.queries > 20000 {
+//@       specWitness = fmt.Sprintf("%s: the handshake was still sending queries after %d of them", name, p.queries)
+//@       return false
+//@    }
+//@    if err != nil {
+//@       return true
+//@    }
+//@    defer client.Close()
+//@    up := specPat(3000, 1)
+//@    down := specPat(5000, 1)
+//@    res := make(chan string, 2)
+//@    go func() {
+//@       conn, err := server.Accept()
+//@       if err != nil {
+//@          res <- "accept: " + err.Error()
+//@          return
+//@       }
+//@       got := make([]byte, len(up))
+//@       if _, err := io.ReadFull(conn, got); err != nil {
+//@          res <- "server read: " + err.Error()
+//@          return
+//@       }
+//@       if !bytes.Equal(got, up) {
+//@          res <- "the server received different octets than the client wrote"
+//@          return
+//@       }
+//@       if _, err := conn.Write(down); err != nil {
+//@          res <- "server write: " + err.Error()
+//@          return
+//@       }
+//@       res <- ""
+//@    }()
+//@    go func() {
+//@       if _, err := client.Write(up); err != nil {
+//@          res <- "client write: " + err.Error()
+//@          return
+//@       }
+//@       got := make([]byte, len(down))
+//@       if _, err := io.ReadFull(client, got); err != nil {
+//@          res <- "client read: " + err.Error()
+//@          return
+//@       }
+//@       if !bytes.Equal(got, down) {
+//@          res <- "the client received different octets than the server wrote"
+//@          return
+//@       }
+//@       res <- ""
+//@    }()
+//@    for i := 0; i < 2; i++ {
+//@       select {
+//@       case r := <-res:
+//@          if r != "" {
+//@             specWitness = fmt.Sprintf("%s: handshake succeeded (type %v, up %s, down %s, fragment %d) but %s", name, *client.Serializer.Upstream.QueryType, client.Serializer.Upstream.Encoder.Name(), client.Serializer.Downstream.Encoder.Name(), client.Serializer.Downstream.FragmentSize, r)
+//@             return false
+//@          }
+//@       case <-time.After(budget):
+//@          specWitness = fmt.Sprintf("%s: handshake succeeded (type %v, up %s, down %s, fragment %d) but the data did not arrive within %v", name, *client.Serializer.Upstream.QueryType, client.Serializer.Upstream.Encoder.Name(), client.Serializer.Downstream.Encoder.Name(), client.Serializer.Downstream.FragmentSize, budget)
+//@          return false
+//@       }
+//@    }
+//@    return true
+//@ }
+// specNegotiation: the scenario with the first `refused` record types of the client's preference order not answered
+//@ go func specNegotiation(name string, refused int, fold int, sevenBit bool, maxAns int) bool {
+//@    p := &specPath{refuse: map[uint16]bool{}, fold: fold, sevenBit: sevenBit, maxAns: maxAns}
+//@    for i := 0; i < refused && i < len(util.QueryTypesByPriority); i++ {
+//@       p.refuse[uint16(util.QueryTypesByPriority[i])] = true
+//@    }
+//@    return specNegotiationScenario(name, p)
+//@ }
+
 //@ func init
 //@   property C09, C11
 //@ fact fullFragmentFits()                                      :bounded_full_fragment_fits_a_name_for_every_codec_and_domain_length
 //@   property C09
 //@ fact specRequestsSurvive()                                   :bounded_requests_survive_the_wire_for_every_command_codec_domain_and_size
+//@   property C11
+//@ fact specNegotiation("transparent path", 0, 0, false, 0)                          :bounded_negotiation_over_a_transparent_path
+//@ fact specNegotiation("NULL not answered", 1, 0, false, 0)                         :bounded_negotiation_without_null
+//@ fact specNegotiation("NULL, PRIVATE not answered", 2, 0, false, 0)                :bounded_negotiation_without_null_private
+//@ fact specNegotiation("NULL, PRIVATE, TXT not answered", 3, 0, false, 0)           :bounded_negotiation_from_srv_down
+//@ fact specNegotiation("only MX, CNAME, AAAA, A answered", 4, 0, false, 0)          :bounded_negotiation_from_mx_down
+//@ fact specNegotiation("only CNAME, AAAA, A answered", 5, 0, false, 0)              :bounded_negotiation_from_cname_down
+//@ fact specNegotiation("only AAAA, A answered", 6, 0, false, 0)                     :bounded_negotiation_from_aaaa_down
+//@ fact specNegotiation("only A answered", 7, 0, false, 0)                           :bounded_negotiation_over_a_records_only
+//@ fact specNegotiation("query names lower-cased", 0, 1, false, 0)                   :bounded_negotiation_over_a_lower_casing_path
+//@ fact specNegotiation("query names upper-cased", 0, 2, false, 0)                   :bounded_negotiation_over_an_upper_casing_path
+//@ fact specNegotiation("7-bit query names", 0, 0, true, 0)                          :bounded_negotiation_over_a_seven_bit_path
+//@ fact specNegotiation("7-bit names, only CNAME and below", 5, 0, true, 0)          :bounded_negotiation_over_a_seven_bit_path_with_host_name_records
+//@ fact specNegotiation("answers up to 1232 octets", 0, 0, false, 1232)              :bounded_negotiation_with_answers_up_to_1232_octets
+//@ fact specNegotiation("answers up to 1232 octets, no NULL, PRIVATE", 2, 0, false, 1232)    :bounded_negotiation_with_answers_up_to_1232_octets_over_txt
+//@ fact specNegotiation("answers up to 512 octets", 0, 0, false, 512)                :bounded_negotiation_with_answers_up_to_512_octets
 //@   property C10
 //@ fact specResponsesSurvive(util.QueryTypeNull, 8192)          :bounded_null_responses_survive_the_wire
 //@ fact specResponsesSurvive(util.QueryTypePrivate, 8192)       :bounded_private_responses_survive_the_wire
